@@ -200,6 +200,34 @@ type HasMapN struct {
 	NL *[]int64
 }
 
+// MapOptT is an ordered map whose values are structs with an optional field, a list and a nested map:
+// entries differ in which of them they fill.
+type OptV struct {
+	A *string
+	L []int64
+	M OMap
+}
+type MapOptT struct {
+	Keys   []string
+	Values map[string]OptV
+}
+type HasMapOpt struct {
+	M MapOptT
+}
+
+// UK2 is a kinded union whose members include structs that are not maps in representation.
+type UK2 struct {
+	T *Tuple
+	J *Joined
+	N *int64
+}
+type HasUK2 struct {
+	A UK2
+	B UK2
+	C UK2
+	D UK2
+}
+
 // BigU holds unsigned values above the int64 range, alone and in (nested) slices.
 type BigU struct {
 	U uint64
@@ -255,6 +283,11 @@ type StrList [String]
 type StrListList [StrList]
 type IntList [Int]
 type HasMapN struct { M MapN  LL StrListList  NL nullable IntList }
+type OptV struct { A optional String  L [Int]  M OMap }
+type MapOpt {String:OptV}
+type HasMapOpt struct { M MapOpt }
+type UK2 union { | Tuple list | Joined string | Int int } representation kinded
+type HasUK2 struct { A UK2  B UK2  C UK2  D UK2 }
 type UList [Int]
 type UListList [UList]
 type BigU struct { U Int  L UList  N UListList }
@@ -432,6 +465,21 @@ var vocab = []vtype{
 			},
 			func() interface{} {
 				return &HasMapN{M: MapNT{Keys: []string{}, Values: map[string]*int64{}}, LL: [][]string{}, NL: nil}
+			},
+		}},
+	{name: "HasMapOpt", schema: "HasMapOpt", ptr: func() interface{} { return (*HasMapOpt)(nil) },
+		vals: []func() interface{}{
+			func() interface{} {
+				return &HasMapOpt{M: MapOptT{Keys: []string{"full", "bare", "mid"}, Values: map[string]OptV{
+					"full": {A: sp("present"), L: []int64{1, 2, 3}, M: OMap{Keys: []string{"k"}, Values: map[string]int64{"k": 9}}},
+					"bare": {A: nil, L: []int64{}, M: OMap{Keys: []string{}, Values: map[string]int64{}}},
+					"mid":  {A: nil, L: []int64{7}, M: OMap{Keys: []string{"z"}, Values: map[string]int64{"z": -1}}}}}}
+			},
+		}},
+	{name: "HasUK2", schema: "HasUK2", ptr: func() interface{} { return (*HasUK2)(nil) },
+		vals: []func() interface{}{
+			func() interface{} {
+				return &HasUK2{A: UK2{T: &Tuple{3, 4}}, B: UK2{J: &Joined{"l", "r"}}, C: UK2{N: ip(5)}, D: UK2{T: &Tuple{0, -1}}}
 			},
 		}},
 	{name: "BigU", schema: "BigU", cborOnly: true, ptr: func() interface{} { return (*BigU)(nil) },
@@ -873,9 +921,24 @@ func Exec(o Op) (out string) {
 // scenarios that want reflection-bound nodes of many shapes in their pools).
 // which selects the type, val the value; both are reduced modulo what exists.
 func Sample(which, val int) (name string, n schema.TypedNode) {
+	return SampleIn(ts(), which, val)
+}
+
+// NewTypeSystem compiles the vocabulary's schema afresh (a scenario that runs many simulated
+// worlds in one process gives each its own, so that damage one run does to a type system
+// cannot reach the next run).
+func NewTypeSystem() *schema.TypeSystem {
+	t, err := ipld.LoadSchemaBytes([]byte(schemaSrc))
+	if err != nil {
+		panic("harness: schema does not load: " + err.Error())
+	}
+	return t
+}
+
+// SampleIn is Sample with the explicit schema taken from the given type system.
+func SampleIn(tsys *schema.TypeSystem, which, val int) (name string, n schema.TypedNode) {
 	vt := vocab[which%len(vocab)]
-	st := ts().TypeByName(vt.schema)
-	return vt.name, bindnode.Wrap(vt.vals[val%len(vt.vals)](), st)
+	return vt.name, bindnode.Wrap(vt.vals[val%len(vt.vals)](), tsys.TypeByName(vt.schema))
 }
 
 // VocabSize is the number of types in the vocabulary.
